@@ -574,6 +574,32 @@ func (e *env) call(x *spec.Call) sval {
 		}
 		mh := c.region(e.st, c.mapHasKey(mt), c.mapHasSort(mt))
 		return sval{t: fmt.Sprintf("(select (select %s %s) %s)", mh, m.t, k.t), sort: "Bool"}
+	case "bytes":
+		// bytes(b): the contents of a []byte (or *[N]byte) as a byte string, in the current heap
+		v := e.tr(x.Args[0])
+		if e.st == nil || v.gt == nil {
+			return e.fail("bytes() needs a typed slice and a heap: %s", x)
+		}
+		switch t := types.Unalias(v.gt).Underlying().(type) {
+		case *types.Slice:
+			h := c.region(e.st, c.elemKey(t.Elem()), c.elemSort("Int"))
+			return sval{t: fmt.Sprintf("(bytesToStr (select %s (sbase %s)) (soff %s) (slen %s))", h, v.t, v.t, v.t), sort: "Str", gt: types.Typ[types.String]}
+		case *types.Pointer:
+			if ar, ok := types.Unalias(t.Elem()).Underlying().(*types.Array); ok {
+				h := c.region(e.st, c.elemKey(ar.Elem()), c.elemSort("Int"))
+				return sval{t: fmt.Sprintf("(bytesToStr (select %s %s) 0 %d)", h, v.t, ar.Len()), sort: "Str", gt: types.Typ[types.String]}
+			}
+		}
+		return e.fail("bytes() of %s", x.Args[0])
+	case "seen":
+		// seen(m, k): the running `range m` loop has already produced key k
+		m, k := e.tr(x.Args[0]), e.tr(x.Args[1])
+		mt, ok := types.Unalias(m.gt).Underlying().(*types.Map)
+		if !ok || e.st == nil {
+			return e.fail("seen() needs a map and a heap: %s", x)
+		}
+		sr := c.region(e.st, "X:seen:"+typeKey(mt), "(Array Int (Array "+c.S.SortOf(mt.Key())+" Bool))")
+		return sval{t: fmt.Sprintf("(select (select %s %s) %s)", sr, m.t, k.t), sort: "Bool"}
 	case "string", "int", "int64", "int32", "int8", "int16", "uint", "uint64", "uint32", "uint8", "uint16", "byte", "rune":
 		// conversions are mathematical identities in specs
 		v := e.tr(x.Args[0])
@@ -648,6 +674,16 @@ func (e *env) applyPure(pf *spec.PureFunc, args []sval) sval {
 		return "(" + fname + " " + strings.Join(ats, " ") + ")"
 	}
 	fname := q("f." + pf.Name)
+	if pf.State {
+		if len(args) != 1 {
+			return e.fail("ghost state %s takes exactly one argument", pf.Name)
+		}
+		if e.st == nil {
+			return e.fail("ghost state %s needs a heap state", pf.Name)
+		}
+		srt := "(Array " + psorts[0] + " " + rsort + ")"
+		return sval{t: fmt.Sprintf("(select %s %s)", c.region(e.st, "X:"+pf.Name, srt), args[0].t), sort: rsort, gt: rgt}
+	}
 	if pf.Body == nil {
 		c.S.declareOnce(fmt.Sprintf("(declare-fun %s (%s) %s)", fname, strings.Join(psorts, " "), rsort))
 		return sval{t: app(fname), sort: rsort, gt: rgt}
